@@ -112,6 +112,9 @@ G07_framingConsistent(cfg, st, h) ==
 G07_bodyFaithful(cfg, st, h) ==
   (Tun(cfg, st) \/ (st.hops >= 1 /\ st.lastStatus \notin {307, 308})) \/
   (h.req.bodyLen = Body(cfg) /\ h.req.bodyLcp = Body(cfg))
+\* the request-target decodes back to the path and query of the URL asked for, and carries no fragment
+G07_target(cfg, st, h) ==
+  Tun(cfg, st) \/ (NormPath(h.req.url.path) = NormPath(st.cur.path) /\ h.req.url.q = st.cur.q /\ ~h.req.url.frag)
 G07_connectionClose(cfg, st, h) == Tun(cfg, st) \/ h.req.conn = <<"close">>
 \* caller-supplied header operations <<name, value>> (set) or <<name, value, TRUE>> (append), in order:
 \* set replaces every earlier value of that name, append adds one
@@ -137,7 +140,7 @@ G07_noSecretsToProxy(cfg, st, h) == TRUE
 HopGuards == {"G09_noExtraRequest", "G09_bound", "G09_resolvedTarget", "G08_dial", "G08_targetForm", "G08_noFragmentNoCreds",
               "G08_host", "G12_connectOnlyWhenTunnelled", "G12_connectNamesOrigin", "G12_proxyAuthorization",
               "G12_nothingBeforeAgreement", "G12_noSecretsInClear", "G12_sniIsOrigin", "G07_oneWellFormedRequest", "G07_method",
-              "G07_framingConsistent", "G07_bodyFaithful", "G07_connectionClose", "G07_queryAndHeaders"}
+              "G07_framingConsistent", "G07_bodyFaithful", "G07_connectionClose", "G07_queryAndHeaders", "G07_target"}
 HopGuard(g, cfg, st, h) ==
   CASE g = "G09_noExtraRequest" -> G09_noExtraRequest(cfg, st, h)
     [] g = "G09_bound" -> G09_bound(cfg, st, h)
@@ -158,6 +161,7 @@ HopGuard(g, cfg, st, h) ==
     [] g = "G07_bodyFaithful" -> G07_bodyFaithful(cfg, st, h)
     [] g = "G07_connectionClose" -> G07_connectionClose(cfg, st, h)
     [] g = "G07_queryAndHeaders" -> G07_queryAndHeaders(cfg, st, h)
+    [] g = "G07_target" -> G07_target(cfg, st, h)
 
 \* property a failed hop guard belongs to: request-shape guards are C07 on the first request, C10 on later hops;
 \* per-hop peer / Host / proxy choice is C08 on the first request, C10 afterwards
